@@ -12,6 +12,10 @@
 //	no panic; at most one WriteHeader and one document in the body; a response was written; JSON bodies parse;
 //	no mutating storage call is journaled after the first byte of an error response of the same request.
 //
+// After the batch come two sweeps of requests that are valid as drawn: against a storage whose method M answers an
+// error value of a catalogue (storerr.go), and under a request context that ends - cancelled or past its deadline - at
+// a drawn position: a span of the library, the entrance of a storage call, before the handler runs (ctxend.go).
+//
 // The case is run once per router with the same PRNG stream, so both routers see the same request sequence
 // (modulo the harvested values).
 package fronthttp
